@@ -346,8 +346,10 @@ func (db *DB) Merge() error {
 					skipEntry = true
 				}
 
-				// check if we have a new entry with same key and bucket
-				if r, _ := db.getRecordFromKey(entry.Meta.bucket, entry.Key); r != nil && !skipEntry {
+				// check if we have a new entry with same key and bucket (the
+				// B+ tree index knows only key/value records: a list, set or
+				// sorted set key of the same name is not superseded by it)
+				if r, _ := db.getRecordFromKey(entry.Meta.bucket, entry.Key); r != nil && !skipEntry && entry.Meta.ds == DataStructureBPTree {
 					if r.H.fileID > int64(pendingMergeFId) {
 						skipEntry = true
 					} else if r.H.fileID == int64(pendingMergeFId) && r.H.dataPos > uint64(off) {
